@@ -6,6 +6,9 @@
 #include "common.h"
 #include <random>
 #include <deque>
+#include <thread>
+#include <atomic>
+#include <algorithm>
 #include "oneapi/tbb/concurrent_priority_queue.h"
 using namespace vh;
 
@@ -123,10 +126,60 @@ static int do_fault(bool api) {
     return 0;
 }
 
+// mode "mt T seed n": real threads.  Elements have a slow copy / move constructor; some throw when copied.  Oracle:
+//   LATE   a push's element was read by the handler after that push() had returned to its caller (the operation record and the element live on the
+//          caller's stack: the answer must not be published before the element is in the queue)
+//   EXC    a push whose element throws must throw to ITS caller (and only to it), a push that does not throw must not
+//   CONS   popped + left = successfully pushed (as multisets)
+//   ORDER  drained by one thread afterwards the queue pops in non-increasing priority
+struct ME {
+    long v = 0; std::atomic<int>* returned = nullptr;
+    static std::atomic<long>& late() { static std::atomic<long> x{0}; return x; }
+    ME() = default; ME(long x, std::atomic<int>* r) : v(x), returned(r) {}
+    void from(const ME& o) { for (volatile int k = 0; k < 150; ++k) {} if (o.v % 1000 == 999) throw 7; if (o.returned && o.returned->load()) late()++; v = o.v; returned = nullptr; }
+    ME(const ME& o) { from(o); }
+    ME(ME&& o) { from(o); }
+    ME& operator=(const ME& o) { v = o.v; returned = nullptr; return *this; }
+    ME& operator=(ME&& o) { v = o.v; returned = nullptr; return *this; }
+};
+struct MELess { bool operator()(const ME& a, const ME& b) const { return a.v < b.v; } };
+static int do_mt(int T, unsigned seed, int n) {
+    tbb::concurrent_priority_queue<ME, MELess> q(200000);      // spare capacity from the start
+    std::vector<std::vector<std::atomic<int>>> flags(T); for (auto& f : flags) { f = std::vector<std::atomic<int>>(n); for (auto& x : f) x = 0; }
+    std::vector<std::vector<ME>> src(T, std::vector<ME>(n));
+    std::vector<std::vector<long>> pushed(T), popped(T);
+    std::atomic<long> excbad{0}; std::atomic<int> go{0};
+    std::vector<std::thread> th;
+    for (int t = 0; t < T; ++t) th.emplace_back([&, t] {
+        std::mt19937 r(seed * 131 + t);
+        while (!go.load()) {}
+        for (int i = 0; i < n; ++i) {
+            if (r() % 4 != 0) {
+                long v = (long)(r() % 50) * 1000 + (r() % 16 == 0 ? 999 : (long)(r() % 900));
+                src[t][i].v = v; src[t][i].returned = &flags[t][i];
+                bool threw = false;
+                try { if (r() % 2) q.push(src[t][i]); else q.push(std::move(src[t][i])); } catch (...) { threw = true; }   // a failed push surfaces as std::bad_alloc
+                flags[t][i] = 1;
+                if (threw != (v % 1000 == 999)) excbad++;
+                if (!threw) pushed[t].push_back(v);
+            } else { ME d; if (q.try_pop(d)) popped[t].push_back(d.v); }
+        }
+    });
+    go = 1;
+    for (auto& x : th) x.join();
+    long order = 0, cons = 0; std::vector<long> rest; ME d; long prev = -1; bool first = true;
+    while (q.try_pop(d)) { if (!first && d.v > prev) order++; prev = d.v; first = false; rest.push_back(d.v); }
+    std::vector<long> a, b; for (auto& p : pushed) a.insert(a.end(), p.begin(), p.end()); for (auto& p : popped) b.insert(b.end(), p.begin(), p.end());
+    b.insert(b.end(), rest.begin(), rest.end()); std::sort(a.begin(), a.end()); std::sort(b.begin(), b.end()); if (a != b) cons = 1;
+    std::printf("LATE %ld EXC %ld CONS %ld ORDER %ld\n", ME::late().load(), excbad.load(), cons, order);
+    return 0;
+}
+
 int main(int argc, char** argv) {
     if (argc > 1 && std::string(argv[1]) == "faultbatch") return do_fault(false);
     if (argc > 1 && std::string(argv[1]) == "faultapi") return do_fault(true);
     std::string m = argc > 1 ? argv[1] : "";
+    if (m == "mt") return do_mt(atoi(argv[2]), (unsigned)atoi(argv[3]), atoi(argv[4]));
     if (m == "batch") return do_batch(false);
     if (m == "api") return do_batch(true);
     return 2;
